@@ -161,3 +161,37 @@ package stun
 //@   ensures result1 == nil ==> DecodedViews(m) && be32(m.Raw, 4) == 0x2112A442
 //@   props C02
 //@   ensures result1 == nil ==> accept(m.Raw, len(m.Raw)) && DecodedContent(m)
+
+// ---- attribute lookup (C02: Get returns the first attribute of a type, Contains is membership) ----
+
+//@ define First(a, t) = firstidx(fieldslice(a, Type), t)
+
+//@ func Attributes.Get
+//@   safety C02 C07
+//@   props C02 C07
+//@   pure
+//@   ensures result1 <==> First(a, t) < len(a)
+//@   ensures result1 ==> result0 == a[First(a, t)]
+//@   loop 0
+//@     invariant -1 <= rangeindex && forall(j, 0, rangeindex+1, a[j].Type != t)
+//@     decreases len(a) - rangeindex
+
+//@ func (*Message).Get
+//@   safety C02 C07
+//@   props C02 C07
+//@   pure
+//@   viewresult
+//@   requires m != nil
+//@   ensures result1 == nil <==> First(m.Attributes, t) < len(m.Attributes)
+//@   ensures result1 == nil ==> sameslice(result0, m.Attributes[First(m.Attributes, t)].Value)
+//@   ensures result1 != nil ==> result1 == ErrAttributeNotFound && result0 == nil
+
+//@ func (*Message).Contains
+//@   safety C02
+//@   props C02
+//@   pure
+//@   requires m != nil
+//@   ensures result <==> First(m.Attributes, t) < len(m.Attributes)
+//@   loop 0
+//@     invariant -1 <= rangeindex && forall(j, 0, rangeindex+1, m.Attributes[j].Type != t)
+//@     decreases len(m.Attributes) - rangeindex
